@@ -218,6 +218,8 @@ func runC06(r *Run) {
 		return n == fnStateCmt || (fnPkg(c).Path() == Mod+"/app")
 	}, "State.Commit and package app (genesis)")
 	r.Floor("C06.bypass", 10)
+	checkNoDerivedState(r)
+	checkSessionFresh(r, "C06.fresh-session")
 
 	// ---- C06.memory: in-memory state of one-per-node objects mutated while executing a transaction
 	checkTxMemory(r)
